@@ -4,7 +4,10 @@
 #include <pthread.h>
 extern pthread_t v_self;                 /* identity of the thread under test */
 extern int       v_mutex_depth;          /* recursion depth of THE library mutex as held by v_mutex_owner */
-extern pthread_t v_mutex_owner;          /* 0 = free */
+extern unsigned long v_mutex_owner;      /* kernel TID of the owner, 0 = free */
+extern unsigned long v_tid;              /* kernel TID of the running thread (changes in a forked child) */
+extern void (*v_atfork_prepare)(void), (*v_atfork_parent)(void), (*v_atfork_child)(void);
+extern int v_atfork_calls, v_in_prepare;
 extern int       v_mutex_initialised, v_mutex_recursive, v_once_done;
 extern int       v_lock_calls, v_unlock_calls;
 extern int       v_child_mode;           /* C10: we are the forked child: only v_self exists */
